@@ -317,6 +317,13 @@ func (r *lockRule) OnInstr(e *Engine, st *State, fc *FrameCtx, in ssa.Instructio
 	if c.StaticCallee() != nil {
 		return false
 	}
+	// a function value that resolves to a function of the analysed modules (a closure handed
+	// to a helper such as withLock(func(){…})) is code of the library, not a callback
+	if !c.IsInvoke() {
+		if callee, _ := e.StaticCallee(fc, c); callee != nil && r.p.InScope(callee) {
+			return false
+		}
+	}
 	// dynamic call or interface invoke: a callback?
 	isCB := false
 	callee := ""
